@@ -63,7 +63,14 @@ def sql_of(bodies):
                     if pl is not None:
                         defs = defs or Defs(b)
                         sl, _ = backward_slice(b, pl['l'], defs, through_calls=False)
-                        strs = [v for k, v, _, _ in slice_consts(sl) if k == 'str']
+                        cs = list(slice_consts(sl))
+                        strs = [v for k, v, _, _ in cs if k == 'str']
+                        if not strs:
+                            # the statement is a named constant of the crate (`const UPDATE_QUERY: &str = ".."`): read its value
+                            from ..flow import static_strs
+                            for k, v, _, _ in cs:
+                                if k == 'uneval':
+                                    strs += static_strs(b.fb, b, v)
                         s = strs[0] if len(strs) == 1 else None
                 out.append((s, b, bb, t))
     return out
